@@ -26,7 +26,7 @@ RULE = ("21 oriented models x shape parameters from each model's random generato
 ASSUMPTIONS = ["raw library functions are the model's own 1-D and 2-D functions",
                "each model is held to its own integration accuracy (observed convergence of both sides)"]
 REQUIRED_MONITORS = ["1d_is_spherical_average", "api_1d_is_average_of_2d", "integration_size_independent_where_resolved"]
-REQUIRED_BUCKETS = {"quick": ["special:two-lengths-equal", "special:one-length-comparable-to-another", "api:q-not-in-increasing-order", "api:size-mesh>100", "sym:ac", "sym:abc", "qsize<1", "qsize>5", "deciding"]}
+REQUIRED_BUCKETS = {"quick": ["special:two-lengths-equal", "special:one-length-comparable-to-another", "api:q-not-in-increasing-order", "api:one-point-jitter-distributions", "finer_rule_compared_with_average", "api:size-mesh>100", "sym:ac", "sym:abc", "qsize<1", "qsize>5", "deciding"]}
 REQUIRED_BUCKETS["thorough"] = REQUIRED_BUCKETS["quick"]
 
 _hi = {}
@@ -208,6 +208,25 @@ def run_case(case, rec):
                                               "finer_rule": one_hi, "odd_rule_size": odd_size(i), "odd_rule": one_odd,
                                               "rel_err": abs(one_odd - one)/abs(one)})
                 rec.bucket("odd_rule_compared")
+        # where the shipped rule reproduces the (converged) spherical average of the 2-D function, the integrand is resolved,
+        # and the finer rule selected through generate.set_integration_size reproduces it too
+        def _same_2d():
+            # (models that also use the Gauss tables inside their 2-D function - superball's shape integral - define
+            # another 2-D function under another rule; the comparison applies where the 2-D function is the same)
+            vh = hi.flat({kk: pars[kk] for kk in pars if kk not in ("scale", "background")})
+            for dx_, dy_, dz_ in ((0.6, 0.0, 0.8), (0.0, 1.0, 0.0), (0.36, 0.48, 0.8)):
+                u_ = r.Iqabc(q*dx_, q*dy_, q*dz_, v) if asym else r.Iqac(q*math.hypot(dx_, dy_), q*dz_, v)
+                w_ = hi.Iqabc(q*dx_, q*dy_, q*dz_, vh) if asym else hi.Iqac(q*math.hypot(dx_, dy_), q*dz_, vh)
+                if not (abs(u_ - w_) <= 1e-12*abs(u_)):
+                    return False
+            return True
+        if hi and np.isfinite(one) and np.isfinite(a2) and a2 != 0 and ref_err <= 1e-8*abs(a2) and abs(one - a2) <= 1e-7*abs(a2) \
+                and _same_2d():
+            okhi = abs(one_hi - a2) <= 1e-5*abs(a2)
+            rec.check("integration_size_independent_where_resolved", okhi,
+                      None if okhi else {"model": name, "pars": pars, "q": float(q), "shipped_rule": one, "finer_rule": one_hi,
+                                         "spherical_average_of_2d": a2, "rel_err_of_finer_rule": abs(one_hi - a2)/abs(a2)})
+            rec.bucket("finer_rule_compared_with_average")
         qsz = q*size
         rec.bucket("qsize<1" if qsz < 1 else "qsize>5" if qsz > 5 else "qsize:1..5")
         if not (np.isfinite(one) and np.isfinite(a2)) or a2 == 0:
@@ -263,6 +282,10 @@ def run_case(case, rec):
                 else:
                     pdx = {}
         p2 = dict(pars, theta=90.0, phi=0.0, scale=1.0, background=0.0, **pdx)
+        if k % 4 == 2:
+            # jitter distributions of a single point (npts 1 with a width left over from earlier settings): zero jitter
+            p2.update(theta_pd=float(rng.uniform(5, 30)), theta_pd_n=1, phi_pd=float(rng.uniform(5, 30)), phi_pd_n=1)
+            rec.bucket("api:one-point-jitter-distributions")
         I2 = np.asarray(direct_model.call_kernel(model.make_kernel([qx, qy]), p2), float)
         avg = float(np.sum(w*I2)/2.0)
         I1 = float(direct_model.call_kernel(model.make_kernel([np.array([q])]), dict(pars, scale=1.0, background=0.0, **pdx))[0])
